@@ -146,6 +146,14 @@ func newFwdMock() *fwdMock {
 		case "301to200":
 			w.Header().Set("Location", "/final200")
 			w.WriteHeader(301)
+		case "raw099", "raw007":
+			// a responder that is not bound by net/http's status range
+			if hj, ok := w.(http.Hijacker); ok {
+				conn, buf, _ := hj.Hijack()
+				fmt.Fprintf(buf, "HTTP/1.1 %s Odd\r\nX-User-Id: u-from-auth\r\nContent-Length: 0\r\nConnection: close\r\n\r\n", b[3:])
+				_ = buf.Flush()
+				_ = conn.Close()
+			}
 		case "":
 			w.WriteHeader(500)
 		default:
@@ -248,7 +256,7 @@ func flipHex(s string, pos int) string {
 
 // C08: ingress authentication is sound and fails closed.
 func C08(c *vlib.Ctx) {
-	c.Rule("generated configurations with basic (1-3 users), hmac (inline secrets, secret_refs with validity windows, custom header names, tolerance 1s-1h) and forward auth (mock service: 200/204/301/401/403/404/500/hang past timeout/reset/closed port/redirect to a 200) run through the production wiring under a virtual clock; per route a valid request and single-field mutations of it (body bit, path character, dot segments, method, timestamp digit, signature nibble, header removed/renamed, upper-case hex, wrong secret, secret outside its window, clock offsets around the tolerance, wrong user/password/scheme). An independent authenticator written from the statement decides authenticity; monitor: queue changed => authentic; not authentic => 401 (basic/hmac), 401/403 passed through or 503 (forward) and queue unchanged. distinct_nontrivial = distinct (auth kind, mutation, authentic, status) classes.")
+	c.Rule("generated configurations with basic (1-3 users), hmac (inline secrets, secret_refs with validity windows, custom header names, tolerance 1s-1h) and forward auth (mock service: 200/204/299/301/302/401/403/404/429/500/503/600, the final 1xx answer 101, raw status lines 099 and 007 from a responder outside net/http, hang past timeout/reset/closed port/redirect to a 200) run through the production wiring under a virtual clock; per route a valid request and single-field mutations of it (body bit, path character, dot segments, method, timestamp digit, signature nibble, header removed/renamed, upper-case hex, wrong secret, secret outside its window, clock offsets around the tolerance, wrong user/password/scheme). An independent authenticator written from the statement decides authenticity; monitor: queue changed => authentic; not authentic => 401 (basic/hmac), 401/403 passed through or 503 (forward) and queue unchanged. distinct_nontrivial = distinct (auth kind, mutation, authentic, status) classes.")
 	c.Assume("completeness is not claimed, but a run in which no valid request is accepted is inconclusive; exactly at |now-ts| = tolerance either answer is accepted")
 	dir := c.Scratch()
 	mock := newFwdMock()
@@ -532,7 +540,7 @@ func C08(c *vlib.Ctx) {
 					if rt.FwdDead {
 						mut, fwdStatus = "service_unreachable", 0
 					} else {
-						b := vlib.Pick(r, []string{"200", "204", "299", "301", "302", "401", "403", "404", "429", "500", "503", "hang", "reset", "301to200"})
+						b := vlib.Pick(r, []string{"200", "204", "299", "301", "302", "401", "403", "404", "429", "500", "503", "hang", "reset", "301to200", "101", "raw099", "raw007", "600"})
 						mut = "auth_" + b
 						q.Headers["X-Mock"] = b
 						switch b {
@@ -540,6 +548,8 @@ func C08(c *vlib.Ctx) {
 							fwdStatus = 0
 						case "301to200":
 							fwdStatus = 301
+						case "raw099", "raw007":
+							fwdStatus, _ = strconv.Atoi(b[3:])
 						default:
 							fwdStatus, _ = strconv.Atoi(b)
 						}
